@@ -321,7 +321,7 @@ theorem update_coh' : ∀ (g : GF) (t : Tr R) (x : Option CM) (args : List Val) 
     cases tr with
     | cond cOld a b =>
       simp only [GF.update, Option.bind_eq_bind, Option.bind_eq_some_iff, Option.pure_def, Option.some.injEq, Prod.mk.injEq] at h
-      obtain ⟨⟨a', wa, da⟩, ha, ⟨b', wb, db⟩, hb, disc, -, rfl, -, -⟩ := h
+      obtain ⟨xq, -, ⟨a', wa, da⟩, ha, ⟨b', wb, db⟩, hb, disc, -, rfl, -, -⟩ := h
       simp only [GF.Coh]
       exact ⟨trivial, update_coh' t _ _ _ _ _ _ ha, update_coh' f _ _ _ _ _ _ hb⟩
     | _ => simp [GF.update] at h
